@@ -64,10 +64,13 @@ def shards(tier, seed):
             out.append(dict(kind="eager", func=func, dtype=dtype, engine=engine, n=n,
                             reduced=(tier == "quick" and engine != "numpy")))
         if func in CHUNKED_FUNCS and dtype != "int64":
+            if tier == "quick" and func in ("prod", "nanvar", "nanmin"):
+                continue
+            nparts = 6 if tier == "quick" else 24
             for method in (None, "map-reduce", "cohorts"):
-                for part in range(2 if tier == "quick" else 6):
+                for part in range(nparts):
                     out.append(dict(kind="chunked", func=func, dtype=dtype, engine="numpy", n=n, method=method,
-                                    part=part, nparts=2 if tier == "quick" else 6, tier=tier))
+                                    part=part, nparts=nparts, tier=tier))
     out.sort(key=lambda s: (0 if s["engine"] == "numbagg" else 1, 0 if s["kind"] == "chunked" else 1))
     return out
 
@@ -113,7 +116,7 @@ def as_kind(vals, kind):
 
 
 def check_point(res, func, dtype, engine, lab_tuple, exname, sort, fillname, min_count, V, chunks=None, method=None,
-                egkind="ndarray"):
+                egkind="ndarray", labels_dask=False):
     labels = np.array(lab_tuple, dtype=float)
     requested = EXPECTED[exname]
     fill = fills_for(func)[fillname] if fillname is not None else None
@@ -127,16 +130,20 @@ def check_point(res, func, dtype, engine, lab_tuple, exname, sort, fillname, min
         kw["method"] = method
     else:
         arr = V
-    out = e1.call_reduce(arr, labels, **kw)
+    by = labels
+    if labels_dask and chunks is not None:
+        by = da.from_array(labels, chunks=(chunks,))
+    out = e1.call_reduce(arr, by, **kw)
     B = V.shape[0]
     res.evaluations += B
     res.states += B
     res.transitions += 1
     n = len(lab_tuple)
     case = dict(func=func, dtype=dtype, engine=engine, labels=list(lab_tuple), expected_groups=exname, sort=sort,
-                fill=fillname, min_count=min_count, chunks=list(chunks) if chunks else None, method=method, egkind=egkind)
+                fill=fillname, min_count=min_count, chunks=list(chunks) if chunks else None, method=method, egkind=egkind,
+                labels_dask=labels_dask)
     tags = dict(func=func, dtype=dtype, engine=engine, expected=exname, sort=sort, fill=str(fillname),
-                min_count=str(min_count), chunked=chunks is not None, method=str(method))
+                min_count=str(min_count), chunked=chunks is not None, method=str(method), labels_dask=labels_dask, egkind=egkind)
     size = n * 10 + (len(chunks) if chunks else 0)
     if out.kind == "refused":
         res.outcomes[f"refused:{out.exc}"] += 1
@@ -215,6 +222,12 @@ def run_shard(shard):
                     req = set(EXPECTED[exname])
                     if (req - present) and (req & present) and len(ch) > 1:
                         res.nontrivial += V.shape[0]
+                # chunked (dask) labels, expected_groups given as ndarray / list / pandas Index
+                if shard["method"] in (None, "map-reduce"):
+                    fn = "false" if func in ("any", "all") else "neg"
+                    for exname, sort, egkind in itertools.product(("permuted-absent", "superset"), (True, False), ("ndarray", "list", "index")):
+                        check_point(res, func, dtype, engine, lt, exname, sort, fn, None, V, chunks=ch, method=shard["method"],
+                                    egkind=egkind, labels_dask=True)
                 if m == 3 and lt == (0.0, 2.0, 0.0) and ch == (1, 2):
                     res.sample(dict(func=func, method=shard["method"], labels=list(lt), chunks=list(ch),
                                     expected_groups=EXPECTED["permuted-absent"], sort=False, fill_value=0, min_count=2))
@@ -229,5 +242,6 @@ def replay(payload):
     lt = tuple(unjson_float(c["labels"]))
     V = space.value_matrix(space.alphabet_for(c["dtype"], small=True), len(lt), c["dtype"])
     check_point(res, c["func"], c["dtype"], c["engine"], lt, c["expected_groups"], c["sort"], c["fill"], c["min_count"], V,
-                chunks=tuple(c["chunks"]) if c.get("chunks") else None, method=c.get("method"), egkind=c.get("egkind", "ndarray"))
+                chunks=tuple(c["chunks"]) if c.get("chunks") else None, method=c.get("method"), egkind=c.get("egkind", "ndarray"),
+                labels_dask=c.get("labels_dask", False))
     return res
